@@ -1,6 +1,8 @@
 package props
 
 import (
+	"os"
+	"strconv"
 	"time"
 
 	"verif/mc/world"
@@ -47,8 +49,13 @@ func core3(name string, props map[string]bool, probe string) *PktModel {
 }
 
 func tierBudget(tier string, quick, thorough time.Duration) time.Duration {
+	d := quick
 	if tier == "thorough" {
-		return thorough
+		d = thorough
 	}
-	return quick
+	// VERIF_BUDGET_SCALE stretches the wall-clock budgets (for runs on a machine that is busy with other work)
+	if f, err := strconv.ParseFloat(os.Getenv("VERIF_BUDGET_SCALE"), 64); err == nil && f > 0 {
+		d = time.Duration(float64(d) * f)
+	}
+	return d
 }
